@@ -273,3 +273,81 @@ func ZZ_C19_H3() {
 	zz.Assert("no-pair-without-a-request", len(tr.log) <= 2*len(uris))
 	zz.Assert("stages-ordered-and-finished", tr.stagesOK)
 }
+
+// ZZ_C19_H4: two connections, one after the other, served by one server: the request context
+// goes back to the pool when the first connection ends and is taken out again for the second
+// (sync.Pool modelled LIFO). The first connection carries one or two complete requests, the
+// second a complete request or a malformed header block (an exchange that ends early, so only
+// some stages run): every pair carries its own request's stage events only - nothing recorded on
+// the earlier connection shows in a later finish.
+func ZZ_C19_H4() {
+	tr := &zzTracer{stagesOK: true}
+	ctl := &internalStats.Controller{}
+	ctl.Append(tr)
+	var handled []string
+	core := zzNewCore(nil)
+	closeAt := -1 // index of the handled request whose handler asks for the connection to be closed
+	core.handler = func(c context.Context, ctx *app.RequestContext) {
+		if len(handled) == closeAt {
+			// server-initiated close: the keep-alive loop is left right after this response,
+			// without the per-request reset
+			ctx.Response.Header.SetConnectionClose(true)
+		}
+		handled = append(handled, string(ctx.Request.RequestURI()))
+		ctx.Response.SetBodyString("ok")
+	}
+	core.tracer = ctl
+	created := 0
+	core.pool.New = func() interface{} {
+		created++
+		ctx := app.NewContext(0)
+		ti := traceinfo.NewTraceInfo()
+		ti.Stats().SetLevel(stats.LevelDetailed)
+		ctx.SetTraceInfo(ti)
+		return ctx
+	}
+	s := zzNewServer(core)
+	s.EnableTrace = true
+	s.IdleTimeout = 1
+	s.StreamRequestBody = zz.Choose("stream", 2) == 1
+	nreq := 0
+	for conn := 0; conn < 2; conn++ {
+		var wire []byte
+		k := 1
+		if conn == 0 {
+			k = zz.Range("requestsOnFirst", 1, 2)
+			if zz.Choose("firstConnectionClosedByServer", 2) == 1 {
+				closeAt = k - 1
+			}
+		}
+		for i := 0; i < k; i++ {
+			t := zz.Choose("tmpl", 3)
+			if conn == 0 && t == 2 {
+				t = 1
+			}
+			switch t {
+			case 0:
+				wire = append(wire, zzTemplates[0].wire...)
+			case 1:
+				wire = append(wire, zzTemplates[1].wire...)
+			case 2:
+				wire = append(wire, "GET /m HTTP/1.1\r\nBad Header\r\n\r\n"...)
+			}
+			nreq++
+		}
+		nc := zz.NewNetConn(wire)
+		_ = s.Serve(context.Background(), standard.ZZNewConn(nc))
+	}
+	zz.Cover("reached-assert", true)
+	zz.Cover("context-recycled-across-connections", created == 1)
+	zz.Assert("start-finish-alternate", zzAlternates(tr.log))
+	ok := true
+	for i, u := range handled {
+		if 2*i+1 >= len(tr.log) || tr.log[2*i+1] != "F:"+u {
+			ok = false
+		}
+	}
+	zz.Assert("each-handled-request-bracketed-by-its-own-pair", ok)
+	zz.Assert("no-pair-without-a-request", len(tr.log) <= 2*nreq)
+	zz.Assert("stages-ordered-and-finished", tr.stagesOK)
+}
